@@ -41,7 +41,7 @@ PROPS["C14"] = dict(
            "medium: truncation, bit flip, inflated length prefix applied to drawn inputs"],
     assumptions=["the pool model is a superset of what the runtime's sync.Pool does and a subset of what its documentation allows",
                  "values are compared with the same code on a pristine decoder (self-differential), so decode defects that do not depend on reuse are out of scope (C13, not claimed); panics are judged on every call"],
-    tests=[dict(name="TestC14Hist", pkg="c14", race=False, mem_gb=8,
+    tests=[dict(name="TestC14Hist", pkg="c14", race=False, mem_gb=4,
                 quick=dict(workers=16, checks=25000, steps=40, watchdog_s=900),
                 thorough=dict(workers=16, checks=600000, steps=50, watchdog_s=5400))],
 )
@@ -69,12 +69,13 @@ PROPS["C15"] = dict(
     tests=[dict(name="TestC15Coop", pkg="c15", race=True, params=dict(max_clients=6),
                 quick=dict(workers=16, checks=1500, steps=30, watchdog_s=900),
                 thorough=dict(workers=16, checks=30000, steps=30, watchdog_s=7200, max_clients=12)),
-           dict(name="TestC15Coop", pkg="c15", race=False, mem_gb=8, params=dict(max_clients=6),
+           dict(name="TestC15Coop", pkg="c15", race=False, mem_gb=4, params=dict(max_clients=6),
                 quick=dict(workers=16, checks=6000, steps=30, watchdog_s=900),
                 thorough=dict(workers=16, checks=100000, steps=30, watchdog_s=7200, max_clients=64))],
 )
 
 PROPS["C03"] = dict(
+    alloc_is_property=True,  # a worker that exhausts its address-space limit (twice, second time alone) is a violation, not machine trouble
     level="exploration",
     engine="hist+medium",
     technique="deterministic simulation: seeded call histories on one csproto.Decoder over a writer-produced message damaged by a faulty medium; spec-derived item-length model, poisoned-tail twin run, allocation metering; plus exhaustive enumeration of truncations and bit flips of seed messages",
@@ -92,10 +93,10 @@ PROPS["C03"] = dict(
     real=["every method of csproto.Decoder (decoder.go)"],
     model=["spec-derived item-length model (oracle)", "medium: truncate / bit flip / inflate or deflate a length prefix, poisoned tail", "recording stub Unmarshaler for DecodeNested"],
     assumptions=["value correctness of successfully decoded items is not judged (C01/C02, not claimed); only totality, cursor accounting, bounds and allocation"],
-    tests=[dict(name="TestC03Hist", pkg="c03", race=False, mem_gb=40,
+    tests=[dict(name="TestC03Hist", pkg="c03", race=False, mem_gb=4,
                 quick=dict(workers=16, checks=100000, steps=25, watchdog_s=900),
                 thorough=dict(workers=16, checks=2500000, steps=30, watchdog_s=7200)),
-           dict(name="TestC03Enum", pkg="c03", race=False, mem_gb=40,
+           dict(name="TestC03Enum", pkg="c03", race=False, mem_gb=4,
                 quick=dict(workers=16, watchdog_s=900),
                 thorough=dict(workers=16, watchdog_s=900))],
 )
@@ -120,13 +121,13 @@ PROPS["C09"] = dict(
     real=["regenerated Size/Marshal/MarshalTo/Unmarshal of all example types", "csproto.Size/Marshal/Unmarshal/Clone/Reset", "gogo/protobuf and protobuf-go Size/Marshal", "goroutines, atomics, race detector"],
     model=["choice of which goroutine runs", "fresh deep copy built field by field through protoreflect (oracle)"],
     assumptions=["the corpus is the repository's example schemas regenerated with the Makefile's options; other schemas/options are input space (C04/C16)"],
-    tests=[dict(name="TestC09Hist", pkg="c09", race=False, mem_gb=16,
+    tests=[dict(name="TestC09Hist", pkg="c09", race=False, mem_gb=4,
                 quick=dict(workers=16, checks=3000, steps=25, watchdog_s=900),
                 thorough=dict(workers=16, checks=200000, steps=30, watchdog_s=7200)),
            dict(name="TestC09Coop", pkg="c09", race=True, params=dict(max_clients=4),
                 quick=dict(workers=16, checks=300, steps=25, watchdog_s=900),
                 thorough=dict(workers=16, checks=20000, steps=25, watchdog_s=7200, max_clients=16)),
-           dict(name="TestC09Coop", pkg="c09", race=False, mem_gb=16, id="TestC09Coop.norace", params=dict(max_clients=8),
+           dict(name="TestC09Coop", pkg="c09", race=False, mem_gb=4, id="TestC09Coop.norace", params=dict(max_clients=8),
                 quick=dict(workers=8, checks=1000, steps=25, watchdog_s=900),
                 thorough=dict(workers=16, checks=100000, steps=25, watchdog_s=7200, max_clients=64))],
 )
@@ -149,10 +150,10 @@ PROPS["C10"] = dict(
     real=["regenerated default-mode Unmarshal of all example types", "csproto.Unmarshal dispatch", "csproto.Decoder", "lazyproto (both entry points, all accessors)"],
     model=["the caller's receive buffer and its recycling", "pool model fixed to LIFO without faults (pool behaviour is not under study here)"],
     assumptions=["enableunsafedecode builds are not regenerated here; the opt-in fast path is exercised through lazyproto's fast mode and judged for panics only"],
-    tests=[dict(name="TestC10Gen", pkg="c10", race=False, mem_gb=16,
+    tests=[dict(name="TestC10Gen", pkg="c10", race=False, mem_gb=4,
                 quick=dict(workers=16, checks=1500, steps=20, watchdog_s=900),
                 thorough=dict(workers=16, checks=150000, steps=25, watchdog_s=7200)),
-           dict(name="TestC10Lazy", pkg="c10", race=False, mem_gb=16,
+           dict(name="TestC10Lazy", pkg="c10", race=False, mem_gb=4,
                 quick=dict(workers=16, checks=4000, steps=30, watchdog_s=900),
                 thorough=dict(workers=16, checks=400000, steps=40, watchdog_s=7200))],
 )
@@ -175,7 +176,7 @@ PROPS["C19"] = dict(
     real=["Encoder.EncodeNested, Encoder scalar methods", "Decoder.DecodeNested/DecodeTag", "csproto.Size/Marshal/Unmarshal dispatch", "regenerated fast-marshal types and plain runtime types"],
     model=["model cursor and expected bytes (protowire)", "failing / Marshal-only collaborators (stubs by design of the property)", "medium: truncation inside a nested payload"],
     assumptions=["nested values whose csproto.Marshal itself fails or panics (C04/C17-class pure-input defects) are skipped and counted, not judged"],
-    tests=[dict(name="TestC19Hist", pkg="c19", race=False, mem_gb=16,
+    tests=[dict(name="TestC19Hist", pkg="c19", race=False, mem_gb=4,
                 quick=dict(workers=16, checks=8000, steps=20, watchdog_s=900),
                 thorough=dict(workers=16, checks=600000, steps=20, watchdog_s=7200))],
 )
@@ -201,7 +202,7 @@ PROPS["C11"] = dict(
     tests=[dict(name="TestC11Coop", pkg="c11", race=True, params=dict(max_clients=4),
                 quick=dict(workers=16, checks=400, steps=25, watchdog_s=900),
                 thorough=dict(workers=16, checks=30000, steps=25, watchdog_s=7200, max_clients=16)),
-           dict(name="TestC11Coop", pkg="c11", race=False, mem_gb=16, id="TestC11Coop.norace", params=dict(max_clients=8),
+           dict(name="TestC11Coop", pkg="c11", race=False, mem_gb=4, id="TestC11Coop.norace", params=dict(max_clients=8),
                 quick=dict(workers=8, checks=1500, steps=25, watchdog_s=900),
                 thorough=dict(workers=16, checks=150000, steps=25, watchdog_s=7200, max_clients=64))],
 )
@@ -223,12 +224,13 @@ PROPS["C12"] = dict(
     real=["extensions.go (all three arms)", "message_types.go", "gogo / golang v1 / protobuf-go extension APIs incl. lazy decoding after a runtime round trip", "regenerated BaseEvent Marshal for the absence check"],
     model=["extension map (oracle)", "hand-written legacy message fixture and dynamic extension descriptors"],
     assumptions=["golang/protobuf's ExtensionDesc is an alias of protobuf-go's ExtensionInfo, so only gogo<->google descriptor pairs are real mismatches"],
-    tests=[dict(name="TestC12Hist", pkg="c12", race=False, mem_gb=16,
+    tests=[dict(name="TestC12Hist", pkg="c12", race=False, mem_gb=4,
                 quick=dict(workers=16, checks=3000, steps=30, watchdog_s=900),
                 thorough=dict(workers=16, checks=250000, steps=40, watchdog_s=7200))],
 )
 
 PROPS["C08"] = dict(
+    alloc_is_property=True,  # a worker that exhausts its address-space limit (twice, second time alone) is a violation, not machine trouble
     level="fault_enumeration",
     engine="medium",
     technique="deterministic fault injection on a stored message: writer -> faulty medium -> regenerated Unmarshal vs dynamicpb reference; exhaustive single-fault enumeration (every truncation offset, every bit flip) per drawn small message plus seeded fault combinations; allocation metering",
@@ -236,7 +238,7 @@ PROPS["C08"] = dict(
     level_text=("For drawn valid messages (fully populated or sparse: 1-3 fields) of every corpus type (87 types, three runtimes), written by the harness's reference encoder, the medium damages the stored bytes: for messages of "
                 "up to 160 bytes every truncation offset and every single-bit flip is enumerated, otherwise the undamaged message plus a drawn combination of up to three faults (truncate, bit flip, inflate/deflate a "
                 "length prefix incl. 2^31-1/2^31/2^63, duplicate or drop a record) is applied, and (always in the exhaustive mode, else 1 in 2) every top-level length prefix is swept over "
-                "seven values from len+1 to 2^63. The regenerated Unmarshal must not panic, must allocate linearly in the input, and whenever "
+                "nine values from len+1 to 2^63. The regenerated Unmarshal must not panic, must allocate linearly in the input, and whenever "
                 "it and the reference runtime (dynamicpb on the schema's own descriptor) both accept, the decoded messages must have the same canonical digest. A reader rejecting what the "
                 "other accepts is not a violation (the property only constrains the accept/accept case). No scheduler or clock is involved: this is the single-actor corner of the technique."),
     level_note="Trusted: the reference encoder, dynamicpb + protodesc, protobuf-go's legacy wrapper for reading gogo structs, runtime/metrics.",
@@ -246,7 +248,7 @@ PROPS["C08"] = dict(
     real=["regenerated default-mode Unmarshal of all example types", "csproto.Decoder underneath", "protobuf-go dynamicpb reader (oracle)"],
     model=["writer (reference encoder)", "medium"],
     assumptions=["enableunsafedecode builds are not regenerated; termination is enforced by the worker watchdog rather than per call"],
-    tests=[dict(name="TestC08Medium", pkg="c08", race=False, mem_gb=40,
+    tests=[dict(name="TestC08Medium", pkg="c08", race=False, mem_gb=4,
                 quick=dict(workers=16, checks=6000, steps=1, watchdog_s=900),
                 thorough=dict(workers=16, checks=150000, steps=1, watchdog_s=7200))],
 )
@@ -269,7 +271,7 @@ PROPS["C06"] = dict(
     real=["regenerated Unmarshal/Marshal/Size/Reset of all example types", "csproto.Unmarshal dispatch"],
     model=["fresh-destination twin (oracle)"],
     assumptions=["agreement with the reference runtime on every legal encoding is not judged here (input space; see C08 for the accept/accept comparison on damaged inputs)"],
-    tests=[dict(name="TestC06Hist", pkg="c06", race=False, mem_gb=16,
+    tests=[dict(name="TestC06Hist", pkg="c06", race=False, mem_gb=4,
                 quick=dict(workers=16, checks=8000, steps=1, watchdog_s=900),
                 thorough=dict(workers=16, checks=600000, steps=1, watchdog_s=7200))],
 )
@@ -293,7 +295,7 @@ PROPS["C20"] = dict(
     real=["dumpProtoFile, dumpProto, tagpath.go", "main() at process level (flag parsing, stdin handling)", "prototest.ParseAnnotatedHex"],
     model=["io.Reader (chunking, zero-length reads, error after n bytes)", "kind of stdin (regular file, pipe, -file)", "medium (truncation, bit flip)"],
     assumptions=["annotated-hex corruption cases and the empty/char-device stdin cases are judged for crashes only"],
-    tests=[dict(name="TestC20IO", pkg="c20", race=False, mem_gb=16,
+    tests=[dict(name="TestC20IO", pkg="c20", race=False, mem_gb=4,
                 quick=dict(workers=16, checks=1500, steps=1, watchdog_s=900),
                 thorough=dict(workers=16, checks=150000, steps=1, watchdog_s=7200))],
 )
@@ -318,7 +320,7 @@ PROPS["C16"] = dict(
     real=["run(), doGenerate, generator.go, funcs.go, render.go, the three templates, protogen", "the built plug-in as a process"],
     model=["clock (synctest bubble)", "working directory", "environment", "GOMAXPROCS", "stdin chunking"],
     assumptions=["an environment variable that is not in the drawn set, the host name and the process id are not controlled (the latter two differ between the helper and the process runs anyway)"],
-    tests=[dict(name="TestC16Env", pkg="c16", race=False, mem_gb=16,
+    tests=[dict(name="TestC16Env", pkg="c16", race=False, mem_gb=4,
                 quick=dict(workers=16, checks=60, steps=1, watchdog_s=1500),
                 thorough=dict(workers=16, checks=500, steps=1, watchdog_s=7200))],
 )
